@@ -774,7 +774,12 @@ func c16ReplyPart[K comparable](kt c16Key[K], obs *c16Obs, set batchkeyset.Batch
 			rep.Fail("reply:unknown-key-accepted", "a reply that mentions a key that was never requested (or an undecodable key / value, or no results) is accepted", site, obs.descReply(&rp), nil)
 		}
 		if !hasOther && !mustErr && err != nil {
-			rep.Fail("reply:valid-reply-rejected", "a reply that only mentions requested keys is rejected", site, obs.descReply(&rp), err.Error())
+			sig := "reply:valid-reply-rejected"
+			if c16UnsetDefault(kt.t, obs.Keys) {
+				// the echoed key is decoded with the schema defaults filled in and no longer Equals the caller's key
+				sig += ":key-leaves-defaulted-field-unset"
+			}
+			rep.Fail(sig, "a reply that only mentions requested keys is rejected", site, obs.descReply(&rp), err.Error())
 		}
 		if err == nil {
 			collect := func(which int, n int, each func(add func(k K, tag int))) {
@@ -1430,6 +1435,8 @@ func runC16(cfg *hx.Config) {
 	c16Run(c16Generated[fam.Color]("Color", 0).with("NewSimpleKeySet", batchkeyset.NewSimpleKeySet[fam.Color]), r, rep, sh, (n+1)/2, special["Color"])
 	c16Run(c16Generated[*fam.Fx4]("Fx4", 0).with("NewSimpleKeySet", batchkeyset.NewSimpleKeySet[*fam.Fx4]), r, rep, sh, n, special["Fx4"])
 	c16Run(c16Generated[*fam.Inner]("Inner", 0).with("NewSimpleKeySet", batchkeyset.NewSimpleKeySet[*fam.Inner]), r, rep, sh, n, special["Inner"])
+	// a record key whose fields have schema defaults (the caller may leave them unset; the echoed key is decoded with them filled in)
+	c16Run(c16Generated[*fam.Dflt]("Dflt", 0).with("NewSimpleKeySet", batchkeyset.NewSimpleKeySet[*fam.Dflt]), r, rep, sh, (n+1)/2, special["Dflt"])
 	c16Run(c16Generated[*fam.CK]("CK", 1).with("NewComplexKeySet", batchkeyset.NewComplexKeySet[*fam.CK]), r, rep, sh, 2*n, special["CK"])
 	c16RunSet(c16Prim[[]byte]("bytes").with("NewBytesKeySet", batchkeyset.NewBytesKeySet), r, rep, sh, n, special["bytes"], nil, nil)
 	sh.Close()
@@ -1456,4 +1463,41 @@ func c16ReplaySpecial(path string) map[string][][]*Val {
 		k.c10Unfix()
 	}
 	return map[string][][]*Val{rp.Case.Type: {rp.Case.Keys}}
+}
+
+// does some key of the list leave a field that has a schema default unset (at any depth of record-typed fields)?
+func c16UnsetDefault(t RType, keys []*Val) bool {
+	var unset func(t RType, v *Val) bool
+	unset = func(t RType, v *Val) bool {
+		if v == nil || t.Reference == nil {
+			return false
+		}
+		n := schema.Types[t.Reference.Name]
+		if n == nil || n.Kind != "record" {
+			return false
+		}
+		for i, inc := range n.Includes {
+			if i < len(v.Incs) && unset(ref(inc), v.Incs[i]) {
+				return true
+			}
+		}
+		for i, f := range n.Fields {
+			if i >= len(v.Fields) {
+				break
+			}
+			if f.DefaultValue != nil && v.Fields[i] == nil {
+				return true
+			}
+			if unset(f.Type, v.Fields[i]) {
+				return true
+			}
+		}
+		return false
+	}
+	for _, k := range keys {
+		if unset(t, k) {
+			return true
+		}
+	}
+	return false
 }
